@@ -22,7 +22,7 @@ type opCase struct {
 	Excluded []string `json:"excluded,omitempty"` // informational: known findings the generator steered away from
 }
 
-var opsPart = pbt.Part[opCase]{Name: "reformulations", Quick: 20000, Thorough: 240000, Gen: genOpCase, Check: checkOpCase}
+var opsPart = pbt.Part[opCase]{Name: "reformulations", Quick: 16000, Thorough: 240000, Gen: genOpCase, Check: checkOpCase}
 
 // unitCase executes the solo probe of one unit (shape oracle only): no unit may be silently
 // unusable.
